@@ -17,10 +17,12 @@ import (
 	"path"
 	"reflect"
 	"regexp"
+	"sort"
 	"strconv"
 	"strings"
 	"time"
 
+	"github.com/go-openapi/loads"
 	"github.com/go-openapi/runtime"
 	"github.com/go-openapi/runtime/middleware"
 	"github.com/go-openapi/runtime/middleware/untyped"
@@ -37,7 +39,11 @@ func init() {
 		Level: "exploration",
 		Rule: "the declaration space {path, query, header, formData-urlencoded, formData-multipart} x {string(+date, date-time, uuid, byte), integer(none,int8..int64), number(none,float,double), boolean, arrays of those with csv/ssv/tsv/pipes/multi, file} x required x default x allowEmptyValue x one validation " +
 			"is enumerated (thorough: completely; quick: a PRNG-chosen part); each declaration gets the boundary-literal pool of its type x presence shapes (absent, empty, once, repeated, header-name case). One operation per declaration, driven through the full untyped handler; " +
-			"oracle = denotation function written from the statement. non-trivial = every judged request; distinct by (declaration, presence shape, literal)",
+			"oracle = denotation function written from the statement. non-trivial = every judged request; distinct by (declaration, presence shape, literal). " +
+			"Added by the strengthening round: a second block of declarations with the other validations (enum on every kind incl. formatted strings and booleans, items.enum, items.maximum, uniqueItems, pattern, multipleOf with exclusive bounds; thorough: all, quick: a PRNG-chosen quarter per pass); " +
+			"declarations placed on the path item or referenced from #/parameters; PUT/PATCH/GET/DELETE operations; form Content-Type spellings (parameters, letter case); " +
+			"operations with 2-4 parameters in several locations (every value must bind, every offending parameter must be named); struct targets with pointer and unsigned fields; " +
+			"one handler and one binder serve all requests of a declaration and the receiver overwrites the slices it was handed after recording them (a later request must still get the declared default)",
 		Assumptions: []string{
 			"texts outside the core literal grammar that Go's strconv nevertheless accepts (inf, NaN, hex floats, underscores) may be refused or bound to the strconv value",
 			"date-time texts other than RFC 3339 and uuid texts other than the canonical 8-4-4-4-12 form may be refused or accepted",
@@ -45,6 +51,9 @@ func init() {
 			"a default that itself violates the declaration's validation is not generated; validations are applied to the text the client sent",
 			"an empty text combined with a declared validation is not judged (it may be validated as the empty value or treated as absent); an empty occurrence of a multi array is not judged",
 			"boolean: the library's documented true-words denote true; false,0,no,n,off,f,disabled,unchecked,unselected denote false; anything else is not a boolean literal",
+			"enum of a formatted string (date, date-time, uuid, byte): a text equal to a listed value is in the enum, a text denoting the same value in another spelling is not judged; validations of a float-format number are not judged when the 32-bit and the 64-bit reading of the text disagree about them",
+			"a pointer-typed struct field may be left nil where the value-typed field would hold the zero value; an unsigned struct field is judged for unsigned decimal texts (and non-decimal texts) only",
+			"two parameters of one operation never share a name (the map handed to the handler is keyed by name)",
 		},
 		MinNontrivial: 500,
 		Run:           run,
@@ -65,13 +74,72 @@ type Req struct {
 	// OtherKey: for query and formData parameters, the texts are sent under this key, which differs
 	// from the declared name in letter case only: such a request does not carry the parameter
 	OtherKey string `json:"otherKey,omitempty"`
+	// CT: spelling of the form Content-Type. "": the bare media type; "charset": "; charset=UTF-8" appended
+	// (what browsers send); "case": the media type in mixed letter case; "both"
+	CT string `json:"ct,omitempty"`
+	// Field: an additional struct target whose field is "ptr" (*T, what generated servers declare for
+	// optional parameters) or "uint" (unsigned integer of the declared width)
+	Field string `json:"field,omitempty"`
 }
 
-// Case is a set of declarations (one operation each) and requests.
+// Ext holds what gen.Param cannot express about a declaration (parallel to Case.Decls).
+type Ext struct {
+	ItemsEnum        []interface{} `json:"itemsEnum,omitempty"`
+	ItemsMaximum     *float64      `json:"itemsMaximum,omitempty"`
+	UniqueItems      bool          `json:"uniqueItems,omitempty"`
+	MultipleOf       *float64      `json:"multipleOf,omitempty"`
+	ExclusiveMinimum bool          `json:"exclusiveMinimum,omitempty"`
+	ExclusiveMaximum bool          `json:"exclusiveMaximum,omitempty"`
+	// Level: "" the operation's own parameter list; "pathitem": declared on the path item (shared by its
+	// operations); "ref": declared under #/parameters and referenced from the operation
+	Level string `json:"level,omitempty"`
+	// Method of the operation ("" = POST)
+	Method string `json:"method,omitempty"`
+}
+
+func (x *Ext) zero() bool { return reflect.DeepEqual(*x, Ext{}) }
+
+// MReq is one request against an operation that declares several parameters.
+type MReq struct {
+	Op    int   `json:"op"`
+	Parts []Req `json:"parts"` // one per declaration of Ops[Op], in that order (Req.D indexes Decls)
+}
+
+// Case is a set of declarations (one operation each, unless grouped by Ops) and requests.
 type Case struct {
 	Decls []gen.Param `json:"decls"`
 	Forms []string    `json:"forms"` // per decl: "", "urlencoded", "multipart"
 	Reqs  []Req       `json:"reqs"`
+	Ext   []Ext       `json:"ext,omitempty"`
+	// Mutate: whoever receives a bound slice (the handler, the owner of the struct target) overwrites its
+	// elements in place after recording it, as a handler that sorts or normalises its input does
+	Mutate bool `json:"mutate,omitempty"`
+	// Ops: operations declaring several parameters (indices into Decls); declarations named here do not
+	// get an operation of their own. MReqs are the requests against them.
+	Ops   [][]int `json:"ops,omitempty"`
+	MReqs []MReq  `json:"mreqs,omitempty"`
+}
+
+// dcl is one declaration with everything that belongs to it.
+type dcl struct {
+	*gen.Param
+	X    Ext
+	Form string
+}
+
+func (c *Case) decl(i int) *dcl {
+	d := &dcl{Param: &c.Decls[i], Form: c.Forms[i]}
+	if i < len(c.Ext) {
+		d.X = c.Ext[i]
+	}
+	return d
+}
+
+func (d *dcl) method() string {
+	if d.X.Method == "" {
+		return "POST"
+	}
+	return d.X.Method
 }
 
 // ---------------- expectation ----------------
@@ -274,51 +342,123 @@ func sepOf(cf string) string {
 	return ","
 }
 
-func validateScalar(d *gen.Param, tpe, text string, canon string) bool {
-	switch tpe {
-	case "integer", "number":
-		var f float64
-		if tpe == "integer" {
-			v, _ := strconv.ParseInt(text, 10, 64)
-			f = float64(v)
-		} else {
-			f, _ = strconv.ParseFloat(text, 64)
-		}
-		if d.Minimum != nil && f < *d.Minimum {
-			return false
-		}
-		if d.Maximum != nil && f > *d.Maximum {
-			return false
-		}
-	case "string":
-		n := int64(len([]rune(text)))
-		if d.MinLength != nil && n < *d.MinLength {
-			return false
-		}
-		if d.MaxLength != nil && n > *d.MaxLength {
-			return false
-		}
+// valueKey: canonical forms that denote equal values get equal keys (minus zero equals zero).
+func valueKey(canon string) string {
+	switch canon {
+	case "float64:8000000000000000":
+		return "float64:0000000000000000"
+	case "float32:80000000":
+		return "float32:00000000"
 	}
-	if len(d.Enum) > 0 && tpe == "string" {
-		ok := false
-		for _, e := range d.Enum {
-			if s, isS := e.(string); isS && s == text {
-				ok = true
-			}
-		}
-		return ok
+	return canon
+}
+
+// numValidations: the numeric validations of a declaration applied to one value.
+func numValidations(d *dcl, f float64) bool {
+	if d.Minimum != nil && (f < *d.Minimum || (d.X.ExclusiveMinimum && f == *d.Minimum)) {
+		return false
+	}
+	if d.Maximum != nil && (f > *d.Maximum || (d.X.ExclusiveMaximum && f == *d.Maximum)) {
+		return false
+	}
+	if d.X.MultipleOf != nil && math.Mod(f, *d.X.MultipleOf) != 0 {
+		return false
 	}
 	return true
 }
 
-func hasValidation(d *gen.Param) bool {
-	return d.Minimum != nil || d.Maximum != nil || d.MinLength != nil || d.MaxLength != nil || len(d.Enum) > 0 || d.MinItems != nil || d.MaxItems != nil
+// inEnum: is the value the text denotes (canonical form canon) one of the listed values?
+// either: the statement does not decide.
+func inEnum(tpe, format, text, canon string, enum []interface{}) (in, either bool) {
+	if tpe == "string" {
+		for _, e := range enum {
+			if s, ok := e.(string); ok && s == text {
+				return true, false
+			}
+		}
+		if format == "" {
+			return false, false
+		}
+	}
+	for _, e := range enum {
+		if c, ok := canonDefault(tpe, format, e); ok && valueKey(c) == valueKey(canon) {
+			in = true
+		}
+	}
+	if tpe == "string" {
+		return false, in // the same date / instant / uuid / bytes in another spelling
+	}
+	if tpe == "number" && format == "float" {
+		// the value bound is the 32-bit reading; a validator may look at either
+		in64 := false
+		if v64, err := strconv.ParseFloat(text, 64); err == nil {
+			for _, e := range enum {
+				if f, ok := e.(float64); ok && f == v64 {
+					in64 = true
+				}
+			}
+		}
+		if in64 != in {
+			return false, true
+		}
+	}
+	return in, false
+}
+
+// validateScalar applies the declared validations to the value one literal denotes.
+func validateScalar(d *dcl, tpe, format, text string, canon string) (ok, either bool) {
+	switch tpe {
+	case "integer":
+		v, _ := strconv.ParseInt(text, 10, 64)
+		if !numValidations(d, float64(v)) {
+			return false, false
+		}
+		if d.X.MultipleOf != nil && *d.X.MultipleOf == math.Trunc(*d.X.MultipleOf) && v%int64(*d.X.MultipleOf) != 0 {
+			return false, false
+		}
+	case "number":
+		f64, _ := strconv.ParseFloat(text, 64)
+		ok64 := numValidations(d, f64)
+		if format == "float" {
+			f32, _ := strconv.ParseFloat(text, 32)
+			if numValidations(d, f32) != ok64 {
+				return false, true
+			}
+		}
+		if !ok64 {
+			return false, false
+		}
+	case "string":
+		if format == "" {
+			n := int64(len([]rune(text)))
+			if d.MinLength != nil && n < *d.MinLength {
+				return false, false
+			}
+			if d.MaxLength != nil && n > *d.MaxLength {
+				return false, false
+			}
+			if d.Pattern != "" {
+				if m, err := regexp.MatchString(d.Pattern, text); err != nil || !m {
+					return false, err != nil
+				}
+			}
+		}
+	}
+	if len(d.Enum) > 0 {
+		return inEnum(tpe, format, text, canon, d.Enum)
+	}
+	return true, false
+}
+
+func hasValidation(d *dcl) bool {
+	return d.Minimum != nil || d.Maximum != nil || d.MinLength != nil || d.MaxLength != nil || len(d.Enum) > 0 || d.MinItems != nil || d.MaxItems != nil ||
+		d.Pattern != "" || len(d.X.ItemsEnum) > 0 || d.X.ItemsMaximum != nil || d.X.UniqueItems || d.X.MultipleOf != nil
 }
 
 // gone: the request does not carry the parameter under its declared name.
 func (rq *Req) gone() bool { return rq.Absent || rq.OtherKey != "" }
 
-func expect(d *gen.Param, rq *Req) expectation {
+func expect(d *dcl, rq *Req) expectation {
 	absent := rq.gone()
 	texts := mon.SQ(rq.Texts)
 	if d.Type == "file" {
@@ -403,6 +543,34 @@ func expect(d *gen.Param, rq *Req) expectation {
 		if d.MaxItems != nil && int64(len(items)) > *d.MaxItems {
 			return expectation{reject: true, why: "maxItems"}
 		}
+		undecided := ""
+		for i, it := range items {
+			if len(d.X.ItemsEnum) > 0 {
+				in, either := inEnum(d.ItemsType, d.ItemsFormat, it, cs[i], d.X.ItemsEnum)
+				if either {
+					undecided = "item equal to a listed value in another spelling"
+				} else if !in {
+					return expectation{reject: true, why: fmt.Sprintf("item %q is not in items.enum", it)}
+				}
+			}
+			if d.X.ItemsMaximum != nil && (d.ItemsType == "integer" || d.ItemsType == "number") {
+				if f, err := strconv.ParseFloat(it, 64); err == nil && f > *d.X.ItemsMaximum {
+					return expectation{reject: true, why: fmt.Sprintf("item %q exceeds items.maximum", it)}
+				}
+			}
+		}
+		if d.X.UniqueItems {
+			seen := map[string]bool{}
+			for _, c := range cs {
+				if seen[valueKey(c)] {
+					return expectation{reject: true, why: "uniqueItems: two items denote the same value"}
+				}
+				seen[valueKey(c)] = true
+			}
+		}
+		if undecided != "" {
+			return expectation{either: true, why: undecided}
+		}
 		return expectation{accepts: []string{"[" + strings.Join(cs, " ") + "]"}, why: "split items"}
 	}
 	// scalar
@@ -438,7 +606,11 @@ func expect(d *gen.Param, rq *Req) expectation {
 	if !ok {
 		return expectation{reject: true, why: fmt.Sprintf("%q is not a valid in-range %s/%s literal", text, d.Type, d.Format)}
 	}
-	if !validateScalar(d, d.Type, text, c[0]) {
+	vok, veither := validateScalar(d, d.Type, d.Format, text, c[0])
+	if veither {
+		return expectation{either: true, why: "validation not decided by the statement for this text"}
+	}
+	if !vok {
 		return expectation{reject: true, why: "validation fails"}
 	}
 	return expectation{accepts: c, why: "literal"}
@@ -462,6 +634,17 @@ func canonOf(v interface{}) string {
 		return canonInt(32, int64(x))
 	case int64:
 		return canonInt(64, x)
+	case uint8:
+		return canonInt(8, int64(x))
+	case uint16:
+		return canonInt(16, int64(x))
+	case uint32:
+		return canonInt(32, int64(x))
+	case uint64:
+		if x > math.MaxInt64 {
+			return fmt.Sprintf("uint64:%d", x)
+		}
+		return canonInt(64, int64(x))
 	case float32:
 		return fmt.Sprintf("float32:%08x", math.Float32bits(x))
 	case float64:
@@ -505,51 +688,199 @@ func canonOf(v interface{}) string {
 	return fmt.Sprintf("other:%T:%v", v, v)
 }
 
-type sut struct {
-	handler http.Handler
-	ran     int
-	got     map[string]interface{}
+// scramble overwrites, in place, the elements of a slice its owner was handed (what a handler does that
+// sorts, normalises or rescales its input). Called only after the value has been recorded.
+func scramble(v interface{}) {
+	rv := reflect.ValueOf(v)
+	if rv.Kind() != reflect.Slice {
+		return
+	}
+	for i := 0; i < rv.Len(); i++ {
+		e := rv.Index(i)
+		if !e.CanSet() {
+			return
+		}
+		switch e.Kind() { //nolint:exhaustive
+		case reflect.String:
+			e.SetString("overwritten-by-an-earlier-receiver")
+		case reflect.Int, reflect.Int8, reflect.Int16, reflect.Int32, reflect.Int64:
+			e.SetInt(^e.Int())
+		case reflect.Uint8:
+			e.SetUint(uint64(^uint8(e.Uint())))
+		case reflect.Uint, reflect.Uint16, reflect.Uint32, reflect.Uint64:
+			e.SetUint(e.Uint() ^ 1)
+		case reflect.Float32, reflect.Float64:
+			e.SetFloat(-e.Float() - 1)
+		case reflect.Bool:
+			e.SetBool(!e.Bool())
+		default:
+			e.Set(reflect.Zero(e.Type()))
+		}
+	}
 }
 
-func (c *Case) desc() gen.Desc {
-	d := gen.Desc{BasePath: "/", Produces: []string{"application/json"}}
-	for i, p := range c.Decls {
-		op := gen.Op{ID: fmt.Sprintf("op%d", i), Method: "POST", Template: fmt.Sprintf("/o%d", i), Params: []gen.Param{p}}
-		if p.In == "path" {
-			op.Template = fmt.Sprintf("/o%d/{%s}", i, p.Name)
+type sut struct {
+	handler   http.Handler
+	mutate    bool
+	ran       int
+	scrambled int64             // handler runs after which the received slices were overwritten
+	got       map[string]string // canonical form of every value handed to the handler, recorded inside the handler
+	binders   map[string]*middleware.UntypedRequestBinder
+}
+
+// opPlan: the operations of a case: which declarations each one declares.
+type opPlan struct {
+	id, method, template string
+	consumes             string
+	decls                []int
+}
+
+func (c *Case) plan() []opPlan {
+	var ops []opPlan
+	grouped := map[int]bool{}
+	for _, g := range c.Ops {
+		for _, di := range g {
+			grouped[di] = true
 		}
-		switch c.Forms[i] {
-		case "urlencoded":
-			op.Consumes = []string{"application/x-www-form-urlencoded"}
-		case "multipart":
-			op.Consumes = []string{"multipart/form-data"}
-		default:
-			op.Consumes = []string{"application/json"}
-		}
-		d.Ops = append(d.Ops, op)
 	}
-	return d
+	consumesOf := func(form string) string {
+		switch form {
+		case "urlencoded":
+			return "application/x-www-form-urlencoded"
+		case "multipart":
+			return "multipart/form-data"
+		}
+		return ""
+	}
+	for i := range c.Decls {
+		if grouped[i] {
+			continue
+		}
+		d := c.decl(i)
+		op := opPlan{id: fmt.Sprintf("op%d", i), method: d.method(), template: fmt.Sprintf("/o%d", i), decls: []int{i}, consumes: consumesOf(d.Form)}
+		if d.In == "path" {
+			op.template = fmt.Sprintf("/o%d/{%s}", i, d.Name)
+		}
+		ops = append(ops, op)
+	}
+	for j, g := range c.Ops {
+		op := opPlan{id: fmt.Sprintf("mop%d", j), method: "POST", template: fmt.Sprintf("/m%d", j), decls: g}
+		for _, di := range g {
+			d := c.decl(di)
+			if d.In == "path" {
+				op.template += "/{" + d.Name + "}"
+			}
+			if cs := consumesOf(d.Form); cs != "" {
+				op.consumes = cs
+			}
+		}
+		ops = append(ops, op)
+	}
+	for i := range ops {
+		if ops[i].consumes == "" {
+			ops[i].consumes = "application/json"
+		}
+	}
+	return ops
+}
+
+// paramObj renders declaration i as its Swagger 2.0 parameter object, with the features gen.Param lacks.
+func (c *Case) paramObj(i int) map[string]interface{} {
+	d := c.decl(i)
+	m := gen.ParamJSON(*d.Param)
+	if it, ok := m["items"].(map[string]interface{}); ok {
+		if len(d.X.ItemsEnum) > 0 {
+			it["enum"] = d.X.ItemsEnum
+		}
+		if d.X.ItemsMaximum != nil {
+			it["maximum"] = *d.X.ItemsMaximum
+		}
+	}
+	if d.X.UniqueItems {
+		m["uniqueItems"] = true
+	}
+	if d.X.MultipleOf != nil {
+		m["multipleOf"] = *d.X.MultipleOf
+	}
+	if d.X.ExclusiveMinimum {
+		m["exclusiveMinimum"] = true
+	}
+	if d.X.ExclusiveMaximum {
+		m["exclusiveMaximum"] = true
+	}
+	return m
+}
+
+// docJSON emits the description: gen.Desc gives the frame (one empty operation per plan entry); the
+// parameters are placed here, on the operation, on its path item, or under #/parameters with a reference.
+func (c *Case) docJSON() []byte {
+	ops := c.plan()
+	gd := gen.Desc{BasePath: "/", Produces: []string{"application/json"}}
+	for _, op := range ops {
+		gd.Ops = append(gd.Ops, gen.Op{ID: op.id, Method: op.method, Template: op.template, Consumes: []string{op.consumes}})
+	}
+	var doc map[string]interface{}
+	if err := json.Unmarshal(gd.JSON(), &doc); err != nil {
+		panic(err)
+	}
+	paths, _ := doc["paths"].(map[string]interface{})
+	shared := map[string]interface{}{}
+	for _, op := range ops {
+		pi, _ := paths[op.template].(map[string]interface{})
+		o, _ := pi[strings.ToLower(op.method)].(map[string]interface{})
+		var own, onItem []interface{}
+		for _, di := range op.decls {
+			pm := c.paramObj(di)
+			switch c.decl(di).X.Level {
+			case "pathitem":
+				onItem = append(onItem, pm)
+			case "ref":
+				key := fmt.Sprintf("shared%d", di)
+				shared[key] = pm
+				own = append(own, map[string]interface{}{"$ref": "#/parameters/" + key})
+			default:
+				own = append(own, pm)
+			}
+		}
+		if len(own) > 0 {
+			o["parameters"] = own
+		}
+		if len(onItem) > 0 {
+			pi["parameters"] = onItem
+		}
+	}
+	if len(shared) > 0 {
+		doc["parameters"] = shared
+	}
+	b, err := json.Marshal(doc)
+	if err != nil {
+		panic(err)
+	}
+	return b
 }
 
 func build(c *Case) (*sut, error) {
-	d := c.desc()
-	doc, err := d.Load()
+	doc, err := loads.Analyzed(json.RawMessage(c.docJSON()), "")
 	if err != nil {
 		return nil, err
 	}
-	s := &sut{}
+	s := &sut{mutate: c.Mutate, binders: map[string]*middleware.UntypedRequestBinder{}}
 	api := untyped.NewAPI(doc)
 	api.RegisterConsumer("application/x-www-form-urlencoded", runtime.DiscardConsumer)
 	api.RegisterConsumer("multipart/form-data", runtime.DiscardConsumer)
-	for i := range d.Ops {
-		op := d.Ops[i]
-		api.RegisterOperation(op.Method, op.Template, runtime.OperationHandlerFunc(func(params interface{}) (interface{}, error) {
+	for _, op := range c.plan() {
+		api.RegisterOperation(op.method, op.template, runtime.OperationHandlerFunc(func(params interface{}) (interface{}, error) {
 			s.ran++
-			s.got, _ = params.(map[string]interface{})
-			for k, v := range s.got { // read uploaded files while the request is live
-				if f, ok := v.(runtime.File); ok {
-					s.got[k] = fileCanon(canonOf(f))
+			got, _ := params.(map[string]interface{})
+			s.got = map[string]string{}
+			for k, v := range got { // record (and read uploaded files) while the request is live
+				s.got[k] = canonOf(v)
+			}
+			if s.mutate {
+				for _, v := range got {
+					scramble(v)
 				}
+				s.scrambled++
 			}
 			return map[string]string{"ok": "1"}, nil
 		}))
@@ -558,80 +889,117 @@ func build(c *Case) (*sut, error) {
 	return s, nil
 }
 
-func (c *Case) request(rq *Req) (*http.Request, bool) {
-	d := &c.Decls[rq.D]
-	texts := mon.SQ(rq.Texts)
-	target := fmt.Sprintf("/o%d", rq.D)
-	var body io.Reader
-	ct := ""
+// part: one parameter's share of a request.
+type part struct {
+	d  *dcl
+	rq *Req
+}
+
+// assemble builds the HTTP request carrying every part.
+func assemble(target, method string, parts []part) (*http.Request, bool) {
+	var query []string
 	hdr := http.Header{}
-	key := d.Name
-	if rq.OtherKey != "" && (d.In == "query" || d.In == "formData") {
-		key = rq.OtherKey
+	form, ctSpelling := "", ""
+	type field struct {
+		key, val, fileName string
+		file               bool
 	}
-	switch d.In {
-	case "path":
-		if rq.Absent || len(texts) != 1 || texts[0] == "" || texts[0] == "." || texts[0] == ".." {
-			return nil, false
+	var fields []field
+	for _, pt := range parts {
+		d, rq := pt.d, pt.rq
+		texts := mon.SQ(rq.Texts)
+		key := d.Name
+		if rq.OtherKey != "" && (d.In == "query" || d.In == "formData") {
+			key = rq.OtherKey
 		}
-		target += "/" + url.PathEscape(texts[0])
-	case "query":
-		if !rq.Absent {
-			var parts []string
-			for _, t := range texts {
-				parts = append(parts, url.QueryEscape(key)+"="+url.QueryEscape(t))
+		switch d.In {
+		case "path":
+			if rq.Absent || len(texts) != 1 || texts[0] == "" || texts[0] == "." || texts[0] == ".." {
+				return nil, false
 			}
-			target += "?" + strings.Join(parts, "&")
-		}
-	case "header":
-		if !rq.Absent {
-			key := rq.HeaderKey
-			if key == "" {
-				key = d.Name
-			}
-			for _, t := range texts {
-				if t != strings.TrimSpace(t) || strings.ContainsAny(t, "\r\n\x00") {
-					return nil, false
+			target += "/" + url.PathEscape(texts[0])
+		case "query":
+			if !rq.Absent {
+				for _, t := range texts {
+					query = append(query, url.QueryEscape(key)+"="+url.QueryEscape(t))
 				}
-				for i := 0; i < len(t); i++ {
-					if t[i] < 0x20 && t[i] != '\t' || t[i] == 0x7f {
+			}
+		case "header":
+			if !rq.Absent {
+				key := rq.HeaderKey
+				if key == "" {
+					key = d.Name
+				}
+				for _, t := range texts {
+					if t != strings.TrimSpace(t) || strings.ContainsAny(t, "\r\n\x00") {
 						return nil, false
 					}
+					for i := 0; i < len(t); i++ {
+						if t[i] < 0x20 && t[i] != '\t' || t[i] == 0x7f {
+							return nil, false
+						}
+					}
+					hdr.Add(key, t) // canonicalises the key like a real server does
 				}
-				hdr.Add(key, t) // canonicalises the key like a real server does
 			}
-		}
-	case "formData":
-		if rq.Shadow != nil {
-			target += "?" + url.QueryEscape(d.Name) + "=" + url.QueryEscape(string(*rq.Shadow))
-		}
-		if c.Forms[rq.D] == "multipart" {
-			var buf bytes.Buffer
-			w := multipart.NewWriter(&buf)
-			_ = w.WriteField("unrelated", "1")
+		case "formData":
+			form = d.Form
+			if rq.CT != "" {
+				ctSpelling = rq.CT
+			}
+			if rq.Shadow != nil {
+				query = append(query, url.QueryEscape(d.Name)+"="+url.QueryEscape(string(*rq.Shadow)))
+			}
 			if !rq.Absent {
 				if d.Type == "file" {
-					fw, _ := w.CreateFormFile(key, rq.FileName)
-					_, _ = fw.Write([]byte(texts[0]))
+					fields = append(fields, field{key: key, val: texts[0], fileName: rq.FileName, file: true})
 				} else {
 					for _, t := range texts {
-						_ = w.WriteField(key, t)
+						fields = append(fields, field{key: key, val: t})
 					}
 				}
 			}
-			w.Close()
-			body = &buf
-			ct = w.FormDataContentType()
-		} else {
-			vals := url.Values{"unrelated": {"1"}}
-			if !rq.Absent {
-				vals[key] = texts
-			}
-			body = strings.NewReader(vals.Encode())
-			ct = "application/x-www-form-urlencoded"
 		}
 	}
-	r := httptest.NewRequest("POST", target, body)
+	var body io.Reader
+	ct := ""
+	switch form {
+	case "multipart":
+		var buf bytes.Buffer
+		w := multipart.NewWriter(&buf)
+		_ = w.WriteField("unrelated", "1")
+		for _, f := range fields {
+			if f.file {
+				fw, _ := w.CreateFormFile(f.key, f.fileName)
+				_, _ = fw.Write([]byte(f.val))
+			} else {
+				_ = w.WriteField(f.key, f.val)
+			}
+		}
+		w.Close()
+		body = &buf
+		ct = w.FormDataContentType()
+		if ctSpelling == "case" || ctSpelling == "both" {
+			ct = "Multipart/Form-Data" + strings.TrimPrefix(ct, "multipart/form-data")
+		}
+	case "urlencoded":
+		vals := url.Values{"unrelated": {"1"}}
+		for _, f := range fields {
+			vals[f.key] = append(vals[f.key], f.val)
+		}
+		body = strings.NewReader(vals.Encode())
+		ct = "application/x-www-form-urlencoded"
+		if ctSpelling == "case" || ctSpelling == "both" {
+			ct = "Application/X-WWW-Form-UrlEncoded"
+		}
+	}
+	if ct != "" && (ctSpelling == "charset" || ctSpelling == "both") {
+		ct += "; charset=UTF-8"
+	}
+	if len(query) > 0 {
+		target += "?" + strings.Join(query, "&")
+	}
+	r := httptest.NewRequest(method, target, body)
 	for k, v := range hdr {
 		r.Header[k] = v
 	}
@@ -642,7 +1010,28 @@ func (c *Case) request(rq *Req) (*http.Request, bool) {
 	return r, true
 }
 
-func declClass(d *gen.Param, form string) string {
+func (c *Case) request(rq *Req) (*http.Request, bool) {
+	d := c.decl(rq.D)
+	return assemble(fmt.Sprintf("/o%d", rq.D), d.method(), []part{{d, rq}})
+}
+
+func valClass(d *dcl) string {
+	switch {
+	case len(d.Enum) > 0:
+		return "+enum"
+	case len(d.X.ItemsEnum) > 0:
+		return "+items-enum"
+	case d.X.ItemsMaximum != nil || d.X.UniqueItems:
+		return "+items-maximum-uniqueItems"
+	case d.Pattern != "":
+		return "+pattern"
+	case d.X.MultipleOf != nil:
+		return "+multipleOf-exclusive-bounds"
+	}
+	return ""
+}
+
+func declClass(d *dcl) string {
 	t := d.Type
 	if d.Format != "" {
 		t += "(" + d.Format + ")"
@@ -655,13 +1044,28 @@ func declClass(d *gen.Param, form string) string {
 		t += ">"
 	}
 	in := d.In
-	if form != "" {
-		in += "-" + form
+	if d.Form != "" {
+		in += "-" + d.Form
 	}
-	return in + "/" + t
+	out := in + "/" + t + valClass(d)
+	switch d.X.Level {
+	case "pathitem":
+		out += "@declared-on-path-item"
+	case "ref":
+		out += "@referenced-declaration"
+	}
+	if d.X.Method != "" && d.X.Method != "POST" {
+		out += "[" + d.X.Method + "]"
+	}
+	return out
 }
 
-func presenceClass(d *gen.Param, rq *Req) string {
+func presenceClass(d *dcl, rq *Req) string {
+	if rq.CT != "" && d.In == "formData" {
+		r2 := *rq
+		r2.CT = ""
+		return presenceClass(d, &r2) + "+content-type-spelling-" + rq.CT
+	}
 	if rq.Shadow != nil {
 		r2 := *rq
 		r2.Shadow = nil
@@ -682,7 +1086,7 @@ func presenceClass(d *gen.Param, rq *Req) string {
 
 // featureOf classifies the INPUT (declaration + request) by the first applicable feature of an ordered
 // list; it is used in signatures only, never in a verdict.
-func featureOf(d *gen.Param, rq *Req, exp *expectation) string {
+func featureOf(d *dcl, rq *Req, exp *expectation) string {
 	tpe, format := d.Type, d.Format
 	if tpe == "array" {
 		tpe, format = d.ItemsType, d.ItemsFormat
@@ -694,7 +1098,10 @@ func featureOf(d *gen.Param, rq *Req, exp *expectation) string {
 	noText := rq.gone() || lastText == ""
 	switch {
 	case tpe == "boolean" && !noText && hasBoolJunk(d, rq):
-		return "boolean-text-neither-true-nor-false-word"
+		return boolJunkFeature
+	case structTypedFormat(kind{tpe, format}) && ((d.Type != "array" && len(d.Enum) > 0) || (d.Type == "array" && len(d.X.ItemsEnum) > 0)):
+		// known finding: the enum validator compares the strfmt value with the listed texts
+		return "enum-on-a-format-not-held-in-a-string"
 	case rq.gone() && !d.Required && d.Default == nil && (hasValidation(d) || d.Format == "uuid"):
 		return "optional-absent-with-validation"
 	case d.Default != nil && d.Type == "array":
@@ -715,7 +1122,9 @@ func featureOf(d *gen.Param, rq *Req, exp *expectation) string {
 	return "plain"
 }
 
-func hasBoolJunk(d *gen.Param, rq *Req) bool {
+const boolJunkFeature = "boolean-text-neither-true-nor-false-word"
+
+func hasBoolJunk(d *dcl, rq *Req) bool {
 	var items []string
 	if d.Type == "array" {
 		if d.CollectionFormat == "multi" {
@@ -740,7 +1149,7 @@ func hasBoolJunk(d *gen.Param, rq *Req) bool {
 }
 
 // float32Boundary: a core-grammar literal whose float64 reading is not its float32 reading.
-func float32Boundary(d *gen.Param, rq *Req) bool {
+func float32Boundary(d *dcl, rq *Req) bool {
 	var items []string
 	if d.Type == "array" {
 		if d.CollectionFormat == "multi" {
@@ -768,7 +1177,109 @@ func float32Boundary(d *gen.Param, rq *Req) bool {
 	return false
 }
 
-func runCase(m *mon.M, c *Case) {
+// sink is what runCase reports to: the monitor, or a silent probe used to find the smallest reproducing case.
+type sink interface {
+	Eval(int)
+	NT(string)
+	Class(string)
+	Note(string, int64)
+	Violate(sig, detail string, cas interface{})
+}
+
+type probe struct{ sigs map[string]bool }
+
+func (p *probe) Eval(int)           {}
+func (p *probe) NT(string)          {}
+func (p *probe) Class(string)       {}
+func (p *probe) Note(string, int64) {}
+func (p *probe) Violate(sig, _ string, _ interface{}) {
+	if p.sigs == nil {
+		p.sigs = map[string]bool{}
+	}
+	p.sigs[sig] = true
+}
+
+// isolations bounds the extra builds spent on finding minimal cases (a broken tree can fail everywhere).
+var isolations = 0
+
+const maxIsolations = 400
+
+// subset: the case made of declaration di alone and the given requests (in order).
+func (c *Case) subset(di int, reqs []int) *Case {
+	d := c.decl(di)
+	o := &Case{Decls: []gen.Param{*d.Param}, Forms: []string{d.Form}, Mutate: c.Mutate}
+	if !d.X.zero() {
+		o.Ext = []Ext{d.X}
+	}
+	for _, ri := range reqs {
+		r := c.Reqs[ri]
+		r.D = 0
+		o.Reqs = append(o.Reqs, r)
+	}
+	return o
+}
+
+func reproduces(c *Case, sig string) bool {
+	p := &probe{}
+	runCase(p, c, false)
+	return p.sigs[sig] || p.sigs[historyPrefix+sig]
+}
+
+const historyPrefix = "only-after-an-earlier-request/"
+
+// report files a violation observed at request ri with the smallest case that shows it: the request alone
+// when that reproduces it; otherwise an earlier request of the same declaration plus this one (the
+// operation kept state between requests), with a signature saying so.
+func report(m sink, c *Case, ri int, isolate bool, sig, detail string) {
+	di := c.Reqs[ri].D
+	one := c.subset(di, []int{ri})
+	var earlier []int
+	for j := 0; j < ri; j++ {
+		if c.Reqs[j].D == di {
+			earlier = append(earlier, j)
+		}
+	}
+	if !isolate || len(earlier) == 0 {
+		m.Violate(sig, detail, one)
+		return
+	}
+	all := c.subset(di, append(append([]int{}, earlier...), ri))
+	if isolations >= maxIsolations {
+		m.Violate(sig, detail, all) // not minimised: the whole history of the declaration in this case
+		return
+	}
+	isolations++
+	if reproduces(one, sig) {
+		m.Violate(sig, detail, one)
+		return
+	}
+	// candidates for a two-request witness: first the earlier requests that carried no text either (they
+	// were handed a default too), then the others, most recent first
+	var cands []int
+	for _, j := range earlier {
+		if r := &c.Reqs[j]; r.gone() || len(r.Texts) == 0 || r.Texts[len(r.Texts)-1] == "" {
+			cands = append(cands, j)
+		}
+	}
+	for k := len(earlier) - 1; k >= 0; k-- {
+		if r := &c.Reqs[earlier[k]]; !(r.gone() || len(r.Texts) == 0 || r.Texts[len(r.Texts)-1] == "") {
+			cands = append(cands, earlier[k])
+		}
+	}
+	for tries, j := range cands {
+		if tries >= 12 {
+			break
+		}
+		pair := c.subset(di, []int{j, ri})
+		if reproduces(pair, sig) {
+			m.Violate(historyPrefix+sig, detail+fmt.Sprintf(" ; the request alone is handled as expected: it takes the earlier request %+v to the same operation", pair.Reqs[0]), pair)
+			return
+		}
+	}
+	m.Violate(historyPrefix+sig, detail+" ; the request alone is handled as expected: it takes the earlier requests to the same operation", all)
+}
+
+func runCase(m sink, c *Case, isolate bool) {
 	s, err := build(c)
 	if err != nil {
 		m.Class("desc-rejected")
@@ -777,15 +1288,14 @@ func runCase(m *mon.M, c *Case) {
 	}
 	for ri := range c.Reqs {
 		rq := &c.Reqs[ri]
-		d := &c.Decls[rq.D]
-		one := &Case{Decls: []gen.Param{*d}, Forms: []string{c.Forms[rq.D]}, Reqs: []Req{{D: 0, Absent: rq.Absent, Texts: rq.Texts, HeaderKey: rq.HeaderKey, FileName: rq.FileName, Shadow: rq.Shadow, OtherKey: rq.OtherKey}}}
+		d := c.decl(rq.D)
 		req, ok := c.request(rq)
 		if !ok {
 			m.Class("undeliverable")
 			continue
 		}
 		exp := expect(d, rq)
-		dc := declClass(d, c.Forms[rq.D])
+		dc := declClass(d)
 		pc := presenceClass(d, rq)
 		feat := featureOf(d, rq, &exp)
 		s.ran, s.got = 0, nil
@@ -796,42 +1306,43 @@ func runCase(m *mon.M, c *Case) {
 		if rq.Shadow != nil {
 			shadow = "|q=" + string(*rq.Shadow)
 		}
-		m.NT(declKey(d, c.Forms[rq.D]) + "|" + pc + "|" + strings.Join(mon.SQ(rq.Texts), "\x00") + shadow)
+		m.NT(declKey(d) + "|" + pc + "|" + strings.Join(mon.SQ(rq.Texts), "\x00") + shadow)
+		coverage(m, d, rq)
 		descr := func() string {
-			db, _ := json.Marshal(d)
-			return fmt.Sprintf("decl=%s form=%q presence=%s texts=%q headerKey=%q -> status %d body %.140q handler=%d got=%s ; expected: %s", db, c.Forms[rq.D], pc, mon.SQ(rq.Texts), rq.HeaderKey, rec.Code, rec.Body.String(), s.ran, gotCanon(s, d), expString(&exp))
+			db, _ := json.Marshal(c.paramObj(rq.D))
+			return fmt.Sprintf("decl=%s form=%q level=%q method=%s presence=%s texts=%q headerKey=%q -> status %d body %.140q handler=%d got=%s ; expected: %s", db, d.Form, d.X.Level, d.method(), pc, mon.SQ(rq.Texts), rq.HeaderKey, rec.Code, rec.Body.String(), s.ran, gotCanon(s, d), expString(&exp))
 		}
 		if pv != nil {
-			m.Violate("panic/"+sigTail(feat, dc, ""), fmt.Sprintf("panic: %v ; %s\n%s", pv, descr(), st), one)
+			report(m, c, ri, isolate, "panic/"+sigTail(feat, dc, ""), fmt.Sprintf("panic: %v ; %s\n%s", pv, descr(), st))
 			continue
 		}
 		if exp.either {
 			m.Class("not-judged")
 			if rec.Code >= 500 {
-				m.Violate("server-error/"+sigTail(feat, dc, ""), descr(), one)
+				report(m, c, ri, isolate, "server-error/"+sigTail(feat, dc, ""), descr())
 			}
 			continue
 		}
 		textClass := literalClass(d, rq)
 		if exp.reject {
 			if s.ran != 0 {
-				m.Violate("accepted-invalid/"+sigTail(feat, dc, textClass), descr(), one)
+				report(m, c, ri, isolate, "accepted-invalid/"+sigTail(feat, dc, textClass), descr())
 				continue
 			}
 			if rec.Code != 422 {
-				m.Violate(fmt.Sprintf("reject-status-%d/%s", rec.Code, sigTail(feat, dc, textClass)), descr(), one)
+				report(m, c, ri, isolate, fmt.Sprintf("reject-status-%d/%s", rec.Code, sigTail(feat, dc, textClass)), descr())
 				continue
 			}
 			if !strings.Contains(rec.Body.String(), d.Name) {
-				m.Violate("422-does-not-name-parameter/"+sigTail(feat, dc, textClass), descr(), one)
+				report(m, c, ri, isolate, "422-does-not-name-parameter/"+sigTail(feat, dc, textClass), descr())
 				continue
 			}
 			m.Class("rejected-422")
-			structTarget(m, c, rq, d, &exp, one, dc, pc, feat)
+			structTarget(m, c, s, ri, d, &exp, isolate, dc, pc, feat)
 			continue
 		}
 		if s.ran != 1 {
-			m.Violate(fmt.Sprintf("refused-valid-status-%d/%s", rec.Code, sigTail(feat, dc, pc+"/"+textClass)), descr(), one)
+			report(m, c, ri, isolate, fmt.Sprintf("refused-valid-status-%d/%s", rec.Code, sigTail(feat, dc, pc+"/"+textClass)), descr())
 			continue
 		}
 		got := gotCanon(s, d)
@@ -842,19 +1353,41 @@ func runCase(m *mon.M, c *Case) {
 			}
 		}
 		if !okv {
-			m.Violate("wrong-value/"+sigTail(feat, dc, pc+"/"+textClass), descr(), one)
+			report(m, c, ri, isolate, "wrong-value/"+sigTail(feat, dc, pc+"/"+textClass), descr())
 			continue
 		}
 		m.Class("bound")
-		structTarget(m, c, rq, d, &exp, one, dc, pc, feat)
+		structTarget(m, c, s, ri, d, &exp, isolate, dc, pc, feat)
 	}
-	if m.WantSample() {
+	for mi := range c.MReqs {
+		runMulti(m, c, s, mi)
+	}
+	m.Note("handler_runs_followed_by_in_place_writes", s.scrambled)
+	if mm, isMon := m.(*mon.M); isMon && mm.WantSample() {
 		sc := Case{}
 		if len(c.Decls) > 0 && len(c.Reqs) > 0 {
 			rq := c.Reqs[len(c.Reqs)/2]
-			sc = Case{Decls: []gen.Param{c.Decls[rq.D]}, Forms: []string{c.Forms[rq.D]}, Reqs: []Req{{Absent: rq.Absent, Texts: rq.Texts, HeaderKey: rq.HeaderKey, OtherKey: rq.OtherKey}}}
+			sc = *c.subset(rq.D, []int{len(c.Reqs) / 2})
+		} else if len(c.MReqs) > 0 {
+			sc = *c.multiAlone(len(c.MReqs) / 2)
 		}
-		m.Sample(sc)
+		mm.Sample(sc)
+	}
+}
+
+// coverage counts the request under the input shapes added by the strengthening round (evidence only).
+func coverage(m sink, d *dcl, rq *Req) {
+	if rq.CT != "" && d.In == "formData" {
+		m.Class("shape:form-content-type-spelling-" + rq.CT)
+	}
+	if d.X.Level != "" {
+		m.Class("shape:declared-" + d.X.Level)
+	}
+	if d.method() != "POST" {
+		m.Class("shape:method-" + d.method())
+	}
+	if v := valClass(d); v != "" {
+		m.Class("shape:validation" + v)
 	}
 }
 
@@ -869,6 +1402,276 @@ func sigTail(feat, dc, rest string) string {
 	}
 	return dc + "/" + rest
 }
+
+// ---------------- operations with several parameters ----------------
+
+// multiAlone: the case made of the operation of MReqs[mi] alone and that one request.
+func (c *Case) multiAlone(mi int) *Case {
+	mr := c.MReqs[mi]
+	o := &Case{Mutate: c.Mutate}
+	var g []int
+	anyExt := false
+	for k, di := range c.Ops[mr.Op] {
+		d := c.decl(di)
+		o.Decls = append(o.Decls, *d.Param)
+		o.Forms = append(o.Forms, d.Form)
+		o.Ext = append(o.Ext, d.X)
+		anyExt = anyExt || !d.X.zero()
+		g = append(g, k)
+	}
+	if !anyExt {
+		o.Ext = nil
+	}
+	o.Ops = [][]int{g}
+	nm := MReq{Op: 0}
+	for k, p := range mr.Parts {
+		p.D = k
+		nm.Parts = append(nm.Parts, p)
+	}
+	o.MReqs = []MReq{nm}
+	return o
+}
+
+func runMulti(m sink, c *Case, s *sut, mi int) {
+	mr := &c.MReqs[mi]
+	if mr.Op < 0 || mr.Op >= len(c.Ops) || len(mr.Parts) != len(c.Ops[mr.Op]) {
+		m.Class("malformed-multi-request")
+		return
+	}
+	var parts []part
+	var locs []string
+	for k := range mr.Parts {
+		rq := &mr.Parts[k]
+		rq.D = c.Ops[mr.Op][k]
+		d := c.decl(rq.D)
+		parts = append(parts, part{d, rq})
+		l := d.In
+		if d.Form != "" {
+			l += "-" + d.Form
+		}
+		locs = append(locs, l)
+	}
+	sort.Strings(locs)
+	shape := strings.Join(locs, "+")
+	req, ok := assemble(fmt.Sprintf("/m%d", mr.Op), "POST", parts)
+	if !ok {
+		m.Class("undeliverable")
+		return
+	}
+	exps := make([]expectation, len(parts))
+	either := false
+	var rejected []int
+	var fp []string
+	for k, pt := range parts {
+		exps[k] = expect(pt.d, pt.rq)
+		either = either || exps[k].either
+		if exps[k].reject {
+			rejected = append(rejected, k)
+		}
+		fp = append(fp, declKey(pt.d)+"|"+presenceClass(pt.d, pt.rq)+"|"+strings.Join(mon.SQ(pt.rq.Texts), "\x00"))
+	}
+	one := c.multiAlone(mi)
+	s.ran, s.got = 0, nil
+	rec := httptest.NewRecorder()
+	pv, st := mon.Catch(func() { s.handler.ServeHTTP(rec, req) })
+	m.Eval(1)
+	m.NT("multi|" + strings.Join(fp, "||"))
+	descr := func() string {
+		var sb strings.Builder
+		for k, pt := range parts {
+			db, _ := json.Marshal(c.paramObj(pt.rq.D))
+			fmt.Fprintf(&sb, "[%d] decl=%s form=%q presence=%s texts=%q headerKey=%q got=%s expected: %s ; ", k, db, pt.d.Form, presenceClass(pt.d, pt.rq), mon.SQ(pt.rq.Texts), pt.rq.HeaderKey, gotCanon(s, pt.d), expString(&exps[k]))
+		}
+		return fmt.Sprintf("one operation, %d parameters (%s): %s-> status %d body %.300q handler=%d", len(parts), shape, sb.String(), rec.Code, rec.Body.String(), s.ran)
+	}
+	tail := func(k int, withPresence bool) string {
+		pt := parts[k]
+		rest := literalClass(pt.d, pt.rq)
+		if withPresence {
+			rest = presenceClass(pt.d, pt.rq) + "/" + rest
+		}
+		return sigTail(featureOf(pt.d, pt.rq, &exps[k]), declClass(pt.d), rest)
+	}
+	if pv != nil {
+		m.Violate("several-parameters/panic/"+shape, fmt.Sprintf("panic: %v ; %s\n%s", pv, descr(), st), one)
+		return
+	}
+	if either {
+		m.Class("multi-not-judged")
+		if rec.Code >= 500 {
+			m.Violate("several-parameters/server-error/"+shape, descr(), one)
+		}
+		return
+	}
+	if len(rejected) > 0 {
+		// offenders explained by the known boolean finding (junk text binds false) are set apart: an operation
+		// that runs although only such parts offend is that finding, under its own signature
+		var real []int
+		for _, k := range rejected {
+			if featureOf(parts[k].d, parts[k].rq, &exps[k]) != boolJunkFeature {
+				real = append(real, k)
+			}
+		}
+		if s.ran != 0 {
+			if len(real) == 0 {
+				m.Violate("accepted-invalid/"+boolJunkFeature, descr(), one)
+				return
+			}
+			m.Violate("several-parameters/accepted-invalid/"+tail(real[0], false), descr(), one)
+			return
+		}
+		k0 := rejected[0]
+		if len(real) > 0 {
+			k0 = real[0]
+		}
+		allRejected := rejected
+		rejected = real
+		if rec.Code != 422 {
+			m.Violate(fmt.Sprintf("several-parameters/reject-status-%d/%s", rec.Code, tail(k0, false)), descr(), one)
+			return
+		}
+		named := 0
+		for _, k := range allRejected {
+			if strings.Contains(rec.Body.String(), parts[k].d.Name) {
+				named++
+			}
+		}
+		for _, k := range rejected {
+			if !strings.Contains(rec.Body.String(), parts[k].d.Name) {
+				kind := "the-only-offending-parameter"
+				if len(allRejected) > 1 {
+					kind = "one-of-several-offending-parameters"
+					// "the answer is 422 naming the parameter": with several offending parameters the HTTP answer
+					// names one of them (go-openapi/errors.ServeError serves the first member of a composite
+					// error, that package's documented policy); naming every offender is not promised. The
+					// struct target, whose error is not cut down, must name each (structTargetMulti).
+					if named > 0 {
+						continue
+					}
+				}
+				m.Violate("several-parameters/422-does-not-name-parameter/"+kind+"/"+tail(k, false), descr(), one)
+				return
+			}
+		}
+		m.Class("multi-rejected-422")
+		structTargetMulti(m, c, mi, parts, exps, one, shape)
+		return
+	}
+	if s.ran != 1 {
+		m.Violate(fmt.Sprintf("several-parameters/refused-valid-status-%d/%s", rec.Code, shape), descr(), one)
+		return
+	}
+	for k, pt := range parts {
+		got := gotCanon(s, pt.d)
+		okv := false
+		for _, a := range exps[k].accepts {
+			okv = okv || a == got
+		}
+		if !okv {
+			m.Violate("several-parameters/wrong-value/"+tail(k, true), descr(), one)
+			return
+		}
+	}
+	m.Class("multi-bound")
+	structTargetMulti(m, c, mi, parts, exps, one, shape)
+}
+
+// structTargetMulti binds the same request into a struct with one value-typed field per parameter.
+func structTargetMulti(m sink, c *Case, mi int, parts []part, exps []expectation, one *Case, shape string) {
+	var fields []reflect.StructField
+	params := map[string]spec.Parameter{}
+	var rp middleware.RouteParams
+	for k, pt := range parts {
+		ft := fieldType(pt.d, "")
+		if ft == nil {
+			return
+		}
+		fn := fmt.Sprintf("F%d", k)
+		fields = append(fields, reflect.StructField{Name: fn, Type: ft})
+		pj, _ := json.Marshal(c.paramObj(pt.rq.D))
+		var sp spec.Parameter
+		if err := json.Unmarshal(pj, &sp); err != nil {
+			return
+		}
+		params[fn] = sp
+		if pt.d.In == "path" {
+			rp = append(rp, middleware.RouteParam{Name: pt.d.Name, Value: string(pt.rq.Texts[0])})
+		}
+	}
+	target := reflect.New(reflect.StructOf(fields))
+	binder := middleware.NewUntypedRequestBinder(params, new(spec.Swagger), strfmt.Default)
+	req, ok := assemble(fmt.Sprintf("/m%d", c.MReqs[mi].Op), "POST", parts)
+	if !ok {
+		return
+	}
+	var berr error
+	pv, stk := mon.Catch(func() { berr = binder.Bind(req, rp, runtime.JSONConsumer(), target.Interface()) })
+	m.Eval(1)
+	descr := func() string {
+		var sb strings.Builder
+		for k, pt := range parts {
+			db, _ := json.Marshal(c.paramObj(pt.rq.D))
+			fmt.Fprintf(&sb, "[%d] decl=%s presence=%s texts=%q field=%s expected: %s ; ", k, db, presenceClass(pt.d, pt.rq), mon.SQ(pt.rq.Texts), canonOf(target.Elem().Field(k).Interface()), expString(&exps[k]))
+		}
+		return fmt.Sprintf("struct target, %d parameters (%s): %s-> err=%v", len(parts), shape, sb.String(), berr)
+	}
+	if pv != nil {
+		m.Violate("struct-target/several-parameters/panic/"+shape, fmt.Sprintf("panic: %v ; %s\n%s", pv, descr(), stk), one)
+		return
+	}
+	anyReject := false
+	for k := range exps {
+		anyReject = anyReject || exps[k].reject
+	}
+	if anyReject {
+		if berr == nil {
+			onlyKnown := true
+			for k, pt := range parts {
+				if exps[k].reject && featureOf(pt.d, pt.rq, &exps[k]) != boolJunkFeature {
+					onlyKnown = false
+				}
+			}
+			if onlyKnown {
+				m.Class("multi-struct-known-boolean-finding")
+				return
+			}
+			m.Violate("struct-target/several-parameters/accepted-invalid/"+shape, descr(), one)
+			return
+		}
+		for k, pt := range parts {
+			if featureOf(pt.d, pt.rq, &exps[k]) == boolJunkFeature {
+				continue // the known boolean finding
+			}
+			if exps[k].reject && !strings.Contains(berr.Error(), pt.d.Name) && !strings.Contains(berr.Error(), fmt.Sprintf("F%d", k)) {
+				m.Violate("struct-target/several-parameters/error-does-not-name-parameter/"+shape, descr(), one)
+				return
+			}
+		}
+		m.Class("multi-struct-rejected")
+		return
+	}
+	if berr != nil {
+		m.Violate("struct-target/several-parameters/refused-valid/"+shape, descr(), one)
+		return
+	}
+	for k, pt := range parts {
+		got := canonOf(target.Elem().Field(k).Interface())
+		if got == "nil" && pt.d.Type == "array" {
+			got = "[]"
+		}
+		okv := false
+		for _, a := range exps[k].accepts {
+			okv = okv || a == got
+		}
+		if !okv {
+			m.Violate("struct-target/several-parameters/wrong-value/"+sigTail(featureOf(pt.d, pt.rq, &exps[k]), declClass(pt.d), presenceClass(pt.d, pt.rq)+"/"+literalClass(pt.d, pt.rq)), descr(), one)
+			return
+		}
+	}
+	m.Class("multi-struct-bound")
+}
+
+// ---------------- struct target ----------------
 
 // goTypeFor is the Go type a generated struct field would have for the declaration.
 func goTypeFor(tpe, format string) reflect.Type {
@@ -906,34 +1709,113 @@ func goTypeFor(tpe, format string) reflect.Type {
 	return nil
 }
 
+// fieldType: the struct field type for a declaration; shape "" (value), "ptr", "uint".
+func fieldType(d *dcl, shape string) reflect.Type {
+	if d.Type == "file" {
+		return nil
+	}
+	if d.Type == "array" {
+		it := goTypeFor(d.ItemsType, d.ItemsFormat)
+		if it == nil || shape != "" {
+			return nil
+		}
+		return reflect.SliceOf(it)
+	}
+	ft := goTypeFor(d.Type, d.Format)
+	if ft == nil {
+		return nil
+	}
+	switch shape {
+	case "ptr":
+		return reflect.PtrTo(ft)
+	case "uint":
+		if d.Type != "integer" {
+			return nil
+		}
+		switch intBits(d.Format) {
+		case 8:
+			return reflect.TypeOf(uint8(0))
+		case 16:
+			return reflect.TypeOf(uint16(0))
+		case 32:
+			return reflect.TypeOf(uint32(0))
+		}
+		return reflect.TypeOf(uint64(0))
+	}
+	return ft
+}
+
+var reUnsigned = regexp.MustCompile(`^[0-9]+$`)
+
+// pointerFieldShape classifies (from the input only) the request shapes whose handling depends on the
+// struct field being a pointer; "" for every other request.
+func pointerFieldShape(d *dcl, rq *Req) string {
+	noText := rq.gone() || len(rq.Texts) == 0 || rq.Texts[len(rq.Texts)-1] == ""
+	switch {
+	case d.Format == "byte":
+		return "byte-format"
+	case noText && d.Default != nil:
+		return "default-declared-and-nothing-sent"
+	case noText && !rq.gone():
+		return "empty-text-sent-and-no-default"
+	case !noText && (hasValidation(d) || d.Format == "uuid"):
+		return "validation-declared-and-text-sent" // uuid: the format itself is checked by the validator
+	}
+	return ""
+}
+
 // structTarget drives the second binding entry point: UntypedRequestBinder.Bind into a struct whose
 // field has the declared Go type. It is only consulted for requests the map entry point handled as the
-// oracle expects (so that one defect is not reported twice), and judges the same expectation.
-func structTarget(m *mon.M, c *Case, rq *Req, d *gen.Param, exp *expectation, one *Case, dc, pc, feat string) {
+// oracle expects (so that one defect is not reported twice), and judges the same expectation. One binder
+// per declaration and field shape serves every request of the case, like the binder of a route does.
+func structTarget(m sink, c *Case, s *sut, ri int, d *dcl, exp *expectation, isolate bool, dc, pc, feat string) {
+	rq := &c.Reqs[ri]
 	if d.Type == "file" || exp.either {
 		return
 	}
-	var ft reflect.Type
-	if d.Type == "array" {
-		it := goTypeFor(d.ItemsType, d.ItemsFormat)
-		if it == nil {
-			return
-		}
-		ft = reflect.SliceOf(it)
-	} else {
-		ft = goTypeFor(d.Type, d.Format)
+	structTargetShape(m, c, s, ri, d, exp, isolate, dc, pc, feat, "")
+	if rq.Field != "" {
+		structTargetShape(m, c, s, ri, d, exp, isolate, dc, pc, feat, rq.Field)
 	}
+}
+
+func structTargetShape(m sink, c *Case, s *sut, ri int, d *dcl, exp *expectation, isolate bool, dc, pc, feat, shape string) {
+	rq := &c.Reqs[ri]
+	ft := fieldType(d, shape)
 	if ft == nil {
 		return
 	}
-	pj, _ := json.Marshal(gen.ParamJSON(*d))
-	var sp spec.Parameter
-	if err := json.Unmarshal(pj, &sp); err != nil {
-		return
+	lc := literalClass(d, rq)
+	if shape == "uint" {
+		// judged for unsigned decimal texts that the declared type accepts, and for texts that are no decimal literal
+		last := ""
+		if !rq.gone() && len(rq.Texts) > 0 {
+			last = string(rq.Texts[len(rq.Texts)-1])
+		}
+		switch {
+		case exp.reject && lc == "not-decimal":
+		case exp.reject && lc == "no-text":
+		case !exp.reject && (last == "" || reUnsigned.MatchString(last)):
+			if def, isNum := d.Default.(float64); isNum && def < 0 {
+				return
+			}
+		default:
+			return
+		}
+	}
+	bk := fmt.Sprintf("%d/%s", rq.D, shape)
+	binder := s.binders[bk]
+	if binder == nil {
+		pj, _ := json.Marshal(c.paramObj(rq.D))
+		var sp spec.Parameter
+		if err := json.Unmarshal(pj, &sp); err != nil {
+			return
+		}
+		binder = middleware.NewUntypedRequestBinder(map[string]spec.Parameter{"F": sp}, new(spec.Swagger), strfmt.Default)
+		s.binders[bk] = binder
 	}
 	st := reflect.StructOf([]reflect.StructField{{Name: "F", Type: ft}})
 	target := reflect.New(st)
-	binder := middleware.NewUntypedRequestBinder(map[string]spec.Parameter{"F": sp}, new(spec.Swagger), strfmt.Default)
 	req, ok := c.request(rq)
 	if !ok {
 		return
@@ -945,37 +1827,71 @@ func structTarget(m *mon.M, c *Case, rq *Req, d *gen.Param, exp *expectation, on
 	var berr error
 	pv, stk := mon.Catch(func() { berr = binder.Bind(req, rp, runtime.JSONConsumer(), target.Interface()) })
 	m.Eval(1)
+	// record before the owner of the struct writes to what it was handed
+	got := "<panic>"
+	if pv == nil {
+		fv := target.Elem().Field(0)
+		if shape == "ptr" {
+			if fv.IsNil() {
+				got = "nil-pointer"
+			} else {
+				got = canonOf(fv.Elem().Interface())
+			}
+		} else {
+			got = canonOf(fv.Interface())
+		}
+		if got == "nil" && d.Type == "array" {
+			got = "[]"
+		}
+		if c.Mutate && berr == nil && shape == "" {
+			scramble(fv.Interface())
+		}
+		if shape != "" {
+			m.Class("shape:struct-field-" + shape)
+		}
+	}
+	prefix := "struct-target/"
+	switch shape {
+	case "ptr":
+		prefix = "struct-target/pointer-field/"
+		if ps := pointerFieldShape(d, rq); ps != "" {
+			// the field shape and this feature explain the failure by themselves
+			feat = ps
+		}
+	case "uint":
+		prefix = "struct-target/unsigned-field/"
+	}
 	descr := func() string {
-		db, _ := json.Marshal(d)
-		return fmt.Sprintf("struct target: decl=%s presence=%s texts=%q -> err=%v field=%s ; expected: %s", db, pc, mon.SQ(rq.Texts), berr, canonOf(target.Elem().Field(0).Interface()), expString(exp))
+		db, _ := json.Marshal(c.paramObj(rq.D))
+		return fmt.Sprintf("struct target (field %s): decl=%s presence=%s texts=%q -> err=%v field=%s ; expected: %s", ft, db, pc, mon.SQ(rq.Texts), berr, got, expString(exp))
 	}
 	if pv != nil {
-		m.Violate("struct-target/panic/"+sigTail(feat, dc, ""), fmt.Sprintf("panic: %v ; %s\n%s", pv, descr(), stk), one)
+		report(m, c, ri, isolate, prefix+"panic/"+sigTail(feat, dc, ""), fmt.Sprintf("panic: %v ; %s\n%s", pv, descr(), stk))
 		return
 	}
 	if exp.reject {
 		if berr == nil {
-			m.Violate("struct-target/accepted-invalid/"+sigTail(feat, dc, literalClass(d, rq)), descr(), one)
+			report(m, c, ri, isolate, prefix+"accepted-invalid/"+sigTail(feat, dc, lc), descr())
 			return
 		}
 		m.Class("struct-rejected")
 		return
 	}
 	if berr != nil {
-		m.Violate("struct-target/refused-valid/"+sigTail(feat, dc, pc+"/"+literalClass(d, rq)), descr(), one)
+		report(m, c, ri, isolate, prefix+"refused-valid/"+sigTail(feat, dc, pc+"/"+lc), descr())
 		return
-	}
-	got := canonOf(target.Elem().Field(0).Interface())
-	if got == "nil" && d.Type == "array" {
-		got = "[]"
 	}
 	for _, a := range exp.accepts {
 		if a == got {
 			m.Class("struct-bound")
 			return
 		}
+		if got == "nil-pointer" && exp.why == "zero value" && a == zeroCanon(d.Type, d.Format) {
+			m.Class("struct-bound") // nothing sent, nothing declared: the pointer may stay nil
+			return
+		}
 	}
-	m.Violate("struct-target/wrong-value/"+sigTail(feat, dc, pc+"/"+literalClass(d, rq)), descr(), one)
+	report(m, c, ri, isolate, prefix+"wrong-value/"+sigTail(feat, dc, pc+"/"+lc), descr())
 }
 
 func firstWords(s string) string {
@@ -985,20 +1901,16 @@ func firstWords(s string) string {
 	return s
 }
 
-func gotCanon(s *sut, d *gen.Param) string {
+func gotCanon(s *sut, d *dcl) string {
 	if s.got == nil {
 		return "<none>"
 	}
-	v, ok := s.got[d.Name]
+	c, ok := s.got[d.Name]
 	if !ok {
 		return "<unbound>"
 	}
-	c := canonOf(v)
 	if c == "nil" && d.Type == "array" {
 		return "[]"
-	}
-	if d.Type == "file" {
-		return c
 	}
 	return c
 }
@@ -1014,7 +1926,7 @@ func expString(e *expectation) string {
 }
 
 // literalClass: input-only classification of the text, for signatures.
-func literalClass(d *gen.Param, rq *Req) string {
+func literalClass(d *dcl, rq *Req) string {
 	if rq.gone() || len(rq.Texts) == 0 {
 		return "no-text"
 	}
@@ -1073,9 +1985,13 @@ func literalClass(d *gen.Param, rq *Req) string {
 	return "text"
 }
 
-func declKey(d *gen.Param, form string) string {
-	b, _ := json.Marshal(d)
-	return form + string(b)
+func declKey(d *dcl) string {
+	b, _ := json.Marshal(d.Param)
+	if d.X.zero() {
+		return d.Form + string(b)
+	}
+	x, _ := json.Marshal(d.X)
+	return d.Form + string(b) + string(x)
 }
 
 // ---------------- generation ----------------
@@ -1233,14 +2149,14 @@ func applyValidation(p *gen.Param, k kind, isArray bool) {
 }
 
 var intPool = []string{"0", "-0", "+7", "007", "-128", "127", "128", "-129", "32767", "32768", "-32768", "-32769", "2147483647", "2147483648", "-2147483648", "-2147483649",
-	"9223372036854775807", "9223372036854775808", "-9223372036854775808", "-9223372036854775809", "0x10", "1_000", "1e3", "1.0", " 5", "5 ", "abc", "٣", "--5", "+", "-", "99", "-100", "101", "42"}
+	"9223372036854775807", "9223372036854775808", "-9223372036854775808", "-9223372036854775809", "0x10", "1_000", "1e3", "1.0", " 5", "5 ", "abc", "٣", "--5", "+", "-", "99", "-100", "101", "42", "98", "-98", "91", "-7", "14"}
 var floatPool = []string{"0", "-0", "1.5", ".5", "5.", "1e10", "1E-3", "+2.5", "3.4028235e38", "3.4028236e38", "3.5e38", "1e39", "-3.5e38", "1.7976931348623157e308", "1.8e308", "1e-400", "1e-46",
-	"inf", "-Inf", "NaN", "0x1p-2", "1_0.5", "1,5", "abc", " 1", "1.000000059604644775390625", "1.000000059604644775390626", "16777217", "100.5", "100.6", "-100.5", "e5", ".", "1e", "--1"}
+	"inf", "-Inf", "NaN", "0x1p-2", "1_0.5", "1,5", "abc", " 1", "1.000000059604644775390625", "1.000000059604644775390626", "16777217", "100.5", "100.6", "-100.5", "e5", ".", "1e", "--1", "100.25", "0.3", "-2", "2.50"}
 var boolPool = []string{"true", "false", "TRUE", "False", "1", "0", "yes", "no", "y", "n", "on", "off", "t", "f", "ok", "enabled", "disabled", "checked", "selected", "maybe", "2", "tru", " true", "nil", "unchecked"}
-var stringPool = []string{"plain", "with space", "a,b", "é", "%41", "x", "abcdefgh", "ab", "a|b", "tab\there", "q&a=b", "+plus", "\"quoted\"", "\xff\xfe"}
-var datePool = []string{"2020-02-29", "2021-02-29", "2020-1-1", "20200101", "2020-02-28T00:00:00Z", "junk", "0001-01-01", "9999-12-31", "2020-13-01"}
-var dateTimePool = []string{"2020-01-02T03:04:05Z", "2020-01-02T03:04:05+01:00", "2020-01-02T03:04:05.123Z", "2020-01-02 03:04:05", "junk", "2020-01-02", "2020-01-02T25:00:00Z", "2020-01-02T03:04:05"}
-var uuidPool = []string{"6ba7b810-9dad-11d1-80b4-00c04fd430c8", "6BA7B810-9DAD-11D1-80B4-00C04FD430C8", "not-a-uuid", "{6ba7b810-9dad-11d1-80b4-00c04fd430c8}", "6ba7b8109dad11d180b400c04fd430c8", "6ba7b810-9dad-11d1-80b4-00c04fd430c", "zzzzzzzz-9dad-11d1-80b4-00c04fd430c8"}
+var stringPool = []string{"plain", "with space", "a,b", "é", "%41", "x", "abcdefgh", "ab", "a|b", "tab\there", "q&a=b", "+plus", "\"quoted\"", "\xff\xfe", "dflt", "Plain", "plain\nx"}
+var datePool = []string{"2019-03-04", "2020-02-29", "2021-02-29", "2020-1-1", "20200101", "2020-02-28T00:00:00Z", "junk", "0001-01-01", "9999-12-31", "2020-13-01"}
+var dateTimePool = []string{"2019-03-04T05:06:07Z", "2019-03-04T06:06:07+01:00", "2020-01-02T03:04:05Z", "2020-01-02T03:04:05+01:00", "2020-01-02T03:04:05.123Z", "2020-01-02 03:04:05", "junk", "2020-01-02", "2020-01-02T25:00:00Z", "2020-01-02T03:04:05"}
+var uuidPool = []string{"6ba7b811-9dad-11d1-80b4-00c04fd430c8", "6ba7b810-9dad-11d1-80b4-00c04fd430c8", "6BA7B810-9DAD-11D1-80B4-00C04FD430C8", "not-a-uuid", "{6ba7b810-9dad-11d1-80b4-00c04fd430c8}", "6ba7b8109dad11d180b400c04fd430c8", "6ba7b810-9dad-11d1-80b4-00c04fd430c", "zzzzzzzz-9dad-11d1-80b4-00c04fd430c8"}
 var bytePool = []string{"aGVsbG8=", "aGVsbG8", "+/8=", "-_8=", "!!!", "YQ==", "YWI=", "a", "++++", "AAAA"}
 
 func poolFor(tpe, format string) []string {
@@ -1267,7 +2183,7 @@ func poolFor(tpe, format string) []string {
 	return stringPool
 }
 
-func genReqs(r *rand.Rand, di int, d *gen.Param, full bool) []Req {
+func genReqs(r *rand.Rand, di int, d *dcl, full bool) []Req {
 	out := genReqsPlain(r, di, d, full)
 	if d.In == "query" || d.In == "formData" {
 		// field names are case-sensitive in these locations: a value under "P3" is not parameter "p3"
@@ -1304,10 +2220,38 @@ func genReqs(r *rand.Rand, di int, d *gen.Param, full bool) []Req {
 			out = append(out, c)
 		}
 	}
+	if d.Default != nil && d.In != "path" {
+		// after everything else (and after the receivers have written to what they were handed): the
+		// parameter is omitted once more and the declared default is due again
+		out = append(out, Req{D: di, Absent: true})
+	}
+	for i := range out {
+		if d.In == "formData" && r.Intn(3) == 0 {
+			// what browsers and other clients send: media type parameters, another letter case
+			out[i].CT = []string{"charset", "charset", "case", "both"}[r.Intn(4)]
+		}
+		if d.Type != "array" && d.Type != "file" {
+			switch k := r.Intn(12); {
+			case k < 3:
+				// Four shapes are not driven into a pointer-typed field (default declared and nothing sent;
+				// empty text and no default; format byte; a validation declared and text sent): the reflective
+				// binder mishandles them there (panics, validations skipped -- DESIGN 9.3, "observed outside
+				// the property"). The Go type of a caller's struct field is not in C03's quantifier
+				// (declarations x requests; "the handler receives" is the map target), so these are reported,
+				// not judged.
+				if pointerFieldShape(d, &out[i]) != "" {
+					break
+				}
+				out[i].Field = "ptr"
+			case k < 5 && d.Type == "integer":
+				out[i].Field = "uint"
+			}
+		}
+	}
 	return out
 }
 
-func genReqsPlain(r *rand.Rand, di int, d *gen.Param, full bool) []Req {
+func genReqsPlain(r *rand.Rand, di int, d *dcl, full bool) []Req {
 	var out []Req
 	hk := func() string {
 		if d.In != "header" {
@@ -1407,14 +2351,309 @@ func validItem(r *rand.Rand, tpe, format string) string {
 	return "x"
 }
 
+// ---------------- the second block of declarations: the other validations ----------------
+
+// enumFor: the listed values of an enum for a kind. The declared default (defaultFor) is always listed.
+func enumFor(k kind) []interface{} {
+	switch k.tpe {
+	case "string":
+		switch k.format {
+		case "date":
+			return []interface{}{"2019-03-04", "2020-02-29"}
+		case "date-time":
+			return []interface{}{"2019-03-04T05:06:07Z", "2020-01-02T03:04:05Z"}
+		case "uuid":
+			return []interface{}{"6ba7b810-9dad-11d1-80b4-00c04fd430c8", "6ba7b811-9dad-11d1-80b4-00c04fd430c8"}
+		case "byte":
+			return []interface{}{"aGVsbG8=", "YQ=="}
+		}
+		return []interface{}{"dflt", "plain", "ab", "a", "bb"}
+	case "integer":
+		return []interface{}{float64(42), float64(7), float64(-128), float64(1), float64(-5)}
+	case "number":
+		return []interface{}{2.5, 1.5, -100.5, float64(0), float64(-2)} // all exactly representable at 32 bits
+	case "boolean":
+		return []interface{}{true}
+	}
+	return nil
+}
+
+// structTypedFormat: string formats whose Go value is not a string (strfmt.Date, strfmt.DateTime, strfmt.Base64).
+func structTypedFormat(k kind) bool {
+	return k.tpe == "string" && (k.format == "date" || k.format == "date-time" || k.format == "byte")
+}
+
+// secondDefaultFor: another valid value of the kind, different from defaultFor (uniqueItems defaults).
+func secondDefaultFor(k kind) interface{} {
+	switch k.tpe {
+	case "string":
+		if k.format == "date" {
+			return "2020-02-29"
+		}
+		return "a"
+	case "integer":
+		return float64(1)
+	case "number":
+		return 1.5
+	case "boolean":
+		return false
+	}
+	return nil
+}
+
+// extraDecls enumerates the declarations that carry the validations allDecls does not: enum on every kind
+// (formatted strings and booleans included), pattern, multipleOf with exclusive bounds, and for arrays
+// items.enum, items.maximum and uniqueItems.
+func extraDecls() (decls []gen.Param, forms []string, exts []Ext) {
+	type loc struct{ in, form string }
+	locs := []loc{{"path", ""}, {"query", ""}, {"header", ""}, {"formData", "urlencoded"}, {"formData", "multipart"}}
+	n := 3
+	add := func(p gen.Param, x Ext, form string) {
+		if p.In == "header" {
+			p.Name = headerNames[n%len(headerNames)]
+		} else {
+			p.Name = fmt.Sprintf("p%d", n%7)
+		}
+		n++
+		decls = append(decls, p)
+		forms = append(forms, form)
+		exts = append(exts, x)
+	}
+	for _, l := range locs {
+		scalarVariants := func(k kind, val string) {
+			base := gen.Param{In: l.in, Type: k.tpe, Format: k.format}
+			var x Ext
+			switch val {
+			case "enum":
+				// (an enum on a date, date-time or byte parameter refuses every listed value on the unchanged
+				// tree: known finding, feature class enum-on-a-format-not-held-in-a-string)
+				base.Enum = enumFor(k)
+			case "other":
+				switch k.tpe {
+				case "integer":
+					base.Minimum, base.Maximum = f64(-98), f64(98)
+					x.ExclusiveMinimum, x.ExclusiveMaximum = true, true
+					x.MultipleOf = f64(7)
+				case "number":
+					base.Minimum, base.Maximum = f64(-100.5), f64(100.5)
+					x.ExclusiveMinimum, x.ExclusiveMaximum = true, true
+					x.MultipleOf = f64(0.25)
+				case "string":
+					if k.format != "" {
+						return
+					}
+					base.Pattern = "^[a-z]+$"
+				default:
+					return
+				}
+			}
+			if l.in == "path" {
+				base.Required = true
+				add(base, x, l.form)
+				return
+			}
+			for _, req := range []bool{false, true} {
+				for _, def := range []bool{false, true} {
+					for _, ae := range []bool{false, true} {
+						p := base
+						p.Required, p.AllowEmptyValue = req, ae
+						if def {
+							p.Default = defaultFor(k)
+						}
+						add(p, x, l.form)
+					}
+				}
+			}
+		}
+		for _, k := range scalarKinds {
+			scalarVariants(k, "enum")
+			scalarVariants(k, "other")
+		}
+		for _, ik := range itemKinds {
+			for _, cf := range collFormats {
+				if cf == "multi" && !(l.in == "query" || l.in == "formData") {
+					continue
+				}
+				for _, val := range []string{"items-enum", "items-maximum-unique"} {
+					base := gen.Param{In: l.in, Type: "array", ItemsType: ik.tpe, ItemsFormat: ik.format, CollectionFormat: cf}
+					var x Ext
+					def := []interface{}{defaultFor(ik), defaultFor(ik)}
+					if val == "items-enum" {
+						x.ItemsEnum = enumFor(ik)
+					} else {
+						x.UniqueItems = true
+						if ik.tpe == "integer" || ik.tpe == "number" {
+							x.ItemsMaximum = f64(100)
+						}
+						def = []interface{}{defaultFor(ik), secondDefaultFor(ik)}
+					}
+					if l.in == "path" {
+						base.Required = true
+						add(base, x, l.form)
+						continue
+					}
+					for _, req := range []bool{false, true} {
+						for _, withDef := range []bool{false, true} {
+							p := base
+							p.Required = req
+							p.AllowEmptyValue = req && !withDef // the combination in which allowEmptyValue decides
+							if withDef {
+								p.Default = def
+							}
+							add(p, x, l.form)
+						}
+					}
+				}
+			}
+		}
+	}
+	return decls, forms, exts
+}
+
+// placement draws where and under which method a declaration is published (both orthogonal to its value).
+func placement(r *rand.Rand, p *gen.Param, x Ext) Ext {
+	switch r.Intn(10) {
+	case 0:
+		x.Level = "pathitem"
+	case 1:
+		x.Level = "ref"
+	}
+	if p.In == "formData" {
+		switch r.Intn(5) {
+		case 0:
+			x.Method = "PUT"
+		case 1:
+			x.Method = "PATCH"
+		}
+	} else {
+		switch r.Intn(10) {
+		case 0:
+			x.Method = "GET"
+		case 1:
+			x.Method = "PUT"
+		case 2:
+			x.Method = "DELETE"
+		}
+	}
+	return x
+}
+
+// ---------------- operations with several parameters: generation ----------------
+
+var multiHeaderNames = []string{"X-Zz%dk", "x-zz%dk", "X-ZZ%dK", "Zz%dk-Id"}
+
+// genMulti builds one case of nOps operations, each declaring 2-4 of the given declarations (renamed so
+// that no two share a name), and nReq requests per operation.
+func genMulti(r *rand.Rand, decls []gen.Param, forms []string, exts []Ext, idx []int, nOps, nReq int) *Case {
+	c := &Case{Mutate: true}
+	for o := 0; o < nOps; o++ {
+		want := 2 + r.Intn(3)
+		form := ""
+		var g []int
+		// every other operation starts from one of the two combinations the single-parameter cases cannot reach
+		var need []string
+		switch o % 4 {
+		case 0:
+			need = []string{"query", "header"}
+		case 1:
+			need = []string{"formData", "query"}
+		}
+		for tries := 0; len(g) < want && tries < 200; tries++ {
+			di := idx[r.Intn(len(idx))]
+			p := decls[di]
+			if len(need) > 0 && p.In != need[0] {
+				continue
+			}
+			if ik := (kind{p.ItemsType, p.ItemsFormat}); (p.Type != "array" && len(p.Enum) > 0 && structTypedFormat(kind{p.Type, p.Format})) ||
+				(p.Type == "array" && di < len(exts) && len(exts[di].ItemsEnum) > 0 && structTypedFormat(ik)) {
+				continue // the declarations of the known finding get operations of their own only
+			}
+			if p.In == "formData" {
+				if form != "" && forms[di] != form {
+					continue
+				}
+				form = forms[di]
+			}
+			if len(need) > 0 {
+				need = need[1:]
+			}
+			pos := len(g)
+			if p.In == "header" {
+				p.Name = fmt.Sprintf(multiHeaderNames[r.Intn(len(multiHeaderNames))], pos)
+			} else {
+				p.Name = fmt.Sprintf("zz%dk", pos)
+			}
+			x := exts[di]
+			x = placement(r, &p, x)
+			x.Method = ""
+			g = append(g, len(c.Decls))
+			c.Decls = append(c.Decls, p)
+			c.Forms = append(c.Forms, forms[di])
+			c.Ext = append(c.Ext, x)
+		}
+		c.Ops = append(c.Ops, g)
+		// candidate requests per part, split into those the declaration accepts and the rest
+		type cand struct{ ok, other []Req }
+		cands := make([]cand, len(g))
+		for k, di := range g {
+			d := c.decl(di)
+			for _, rq := range genReqsPlain(r, di, d, true) {
+				if d.In == "path" && (rq.Absent || len(rq.Texts) != 1 || rq.Texts[0] == "") {
+					continue
+				}
+				e := expect(d, &rq)
+				if !e.either && !e.reject {
+					cands[k].ok = append(cands[k].ok, rq)
+				} else {
+					cands[k].other = append(cands[k].other, rq)
+				}
+			}
+		}
+		for q := 0; q < nReq; q++ {
+			mr := MReq{Op: o}
+			mode := r.Intn(10) // 0-5: every part valid; 6-7: one part drawn freely; 8-9: every part drawn freely
+			free := r.Intn(len(g))
+			for k := range g {
+				cd := cands[k]
+				pickFree := mode >= 8 || (mode >= 6 && k == free)
+				var rq Req
+				switch {
+				case (pickFree && len(cd.other) > 0 && r.Intn(4) != 0) || len(cd.ok) == 0:
+					if len(cd.other) == 0 {
+						rq = Req{D: g[k], Absent: true}
+					} else {
+						rq = cd.other[r.Intn(len(cd.other))]
+					}
+				default:
+					rq = cd.ok[r.Intn(len(cd.ok))]
+				}
+				if form != "" && q%3 == 2 {
+					rq.CT = "charset"
+				}
+				mr.Parts = append(mr.Parts, rq)
+			}
+			c.MReqs = append(c.MReqs, mr)
+		}
+	}
+	return c
+}
+
 func run(m *mon.M) {
 	decls, forms := allDecls()
+	nBase := len(decls)
+	exts := make([]Ext, nBase)
+	xd, xf, xx := extraDecls()
+	decls, forms, exts = append(decls, xd...), append(forms, xf...), append(exts, xx...)
 	r := m.Rand("c03")
-	// this shard's declarations
-	var idx []int
+	// this shard's declarations: the first block (as before) and the second block (the other validations)
+	var idx, idx2 []int
 	for i := range decls {
 		if i%m.NShards == m.Shard {
-			idx = append(idx, i)
+			if i < nBase {
+				idx = append(idx, i)
+			} else {
+				idx2 = append(idx2, i)
+			}
 		}
 	}
 	full := true // both tiers use every literal of the pools
@@ -1424,25 +2663,59 @@ func run(m *mon.M) {
 	passes := m.N(2, 40) // the random parts (array texts, repeated pairs, header-name spellings) are re-drawn per pass
 	if m.Shard == 0 {
 		m.Note("declarations_in_space", int64(len(decls)))
+		m.Note("declarations_in_first_block", int64(nBase))
 	}
 	const group = 24
-	for pass := 0; pass < passes; pass++ {
-		for g := 0; g < len(idx); g += group {
+	sweep := func(ids []int, note string) {
+		for g := 0; g < len(ids); g += group {
 			end := g + group
-			if end > len(idx) {
-				end = len(idx)
+			if end > len(ids) {
+				end = len(ids)
 			}
-			c := &Case{}
-			for k, di := range idx[g:end] {
+			c := &Case{Mutate: true}
+			for k, di := range ids[g:end] {
 				c.Decls = append(c.Decls, decls[di])
 				c.Forms = append(c.Forms, forms[di])
-				c.Reqs = append(c.Reqs, genReqs(r, k, &c.Decls[k], full)...)
+				c.Ext = append(c.Ext, placement(r, &decls[di], exts[di]))
+				c.Reqs = append(c.Reqs, genReqs(r, k, c.decl(k), full)...)
 			}
 			m.Begin(c)
-			runCase(m, c)
-			if pass == 0 {
-				m.Note("declarations_exercised", int64(len(c.Decls)))
+			runCase(m, c, true)
+			if note != "" {
+				m.Note(note, int64(len(c.Decls)))
 			}
+		}
+	}
+	all := append(append([]int{}, idx...), idx2...)
+	for pass := 0; pass < passes; pass++ {
+		note := ""
+		if pass == 0 {
+			note = "declarations_exercised"
+		}
+		sweep(idx, note)
+		// the second block: thorough enumerates it on every second pass; quick takes a PRNG-chosen quarter per pass
+		var part []int
+		switch {
+		case m.Quick():
+			for _, di := range idx2 {
+				if r.Intn(4) == 0 {
+					part = append(part, di)
+				}
+			}
+		case pass%2 == 0:
+			part = idx2
+		}
+		note2 := ""
+		if pass == 0 || m.Quick() {
+			note2 = "second_block_declaration_sweeps"
+		}
+		sweep(part, note2)
+		// operations with several parameters, drawn from both blocks
+		for k := m.N(12, 8); k > 0; k-- {
+			c := genMulti(r, decls, forms, exts, all, group, 8)
+			m.Begin(c)
+			runCase(m, c, true)
+			m.Note("operations_with_several_parameters", int64(len(c.Ops)))
 		}
 	}
 }
@@ -1453,6 +2726,9 @@ func replay(m *mon.M, raw json.RawMessage) {
 		m.Violate("bad-replay-case", err.Error(), nil)
 		return
 	}
+	if len(c.Forms) < len(c.Decls) {
+		c.Forms = append(c.Forms, make([]string, len(c.Decls)-len(c.Forms))...)
+	}
 	// JSON round trip turns integer-valued defaults into float64 already; nothing to fix up
-	runCase(m, &c)
+	runCase(m, &c, true)
 }
